@@ -5,6 +5,7 @@ from ..core import (
     callee_of,
     callee_is,
     callee_name,
+    callee_decl,
     callee_matches,
     strip_generics,
     op_place,
@@ -165,13 +166,24 @@ def _self_mutations(prog, body, after_site=None):
 
 
 def _is_freshness_cond(body, cond):
-    """does the branch condition depend on a read of the framework's argument store"""
+    """is the branch condition an exact test that a label is (was) new: a by-label look-up in the
+    framework's argument store, or a comparison of ONE counting function of the store read before
+    and after the insertion (two different counters - e.g. the largest id against the number of
+    live arguments - agree only while nothing was ever removed)"""
     _, calls, _ = data_deps(body, cond.place)
+    lookups, counters = [], []
     for cs in calls:
         c = callee_of(cs)
-        if c and callee_matches(c, r"^aa::(arguments::ArgumentSet|aa_framework::AAFramework)::(get_argument|has_argument|n_arguments|len|get_argument_index|max_argument_id)$|^utils::label::LabelSet::"):
-            return True
-    return False
+        if not c:
+            continue
+        if callee_matches(c, r"^aa::(arguments::ArgumentSet|aa_framework::AAFramework)::(get_argument|has_argument|get_argument_index)$|^utils::label::LabelSet::(get|contains|get_label|index_of)"):
+            lookups.append(cs)
+        elif callee_matches(c, r"^aa::(arguments::ArgumentSet|aa_framework::AAFramework)::(n_arguments|len|max_argument_id|n_removed|is_empty)$|^utils::label::LabelSet::(len|n_labels)"):
+            counters.append(cs)
+    if counters:
+        kinds = {strip_generics(callee_decl(callee_of(cs))) for cs in counters}
+        return len(kinds) == 1 and len({(cs.bb, cs.si) for cs in counters}) >= 2
+    return bool(lookups)
 
 
 def rule_noop_insertion(ctx):
